@@ -15,6 +15,7 @@ import VotelibProofs.Lemmas.MonoBucklinCoef
 import VotelibProofs.Lemmas.MonoMinimax
 import VotelibProofs.Lemmas.MonoBridge
 import VotelibProofs.Lemmas.MonoRules
+import VotelibProofs.Lemmas.MonoApprovalSplit
 import VotelibProofs.Lemmas.MonoSchulze
 import VotelibProofs.Lemmas.MonoNewFull
 namespace VL.C17
@@ -221,6 +222,75 @@ theorem approval_monotone_new (p : AProfile) (nb : Approval) (w : Cand) (hnd : n
   · intro y
     rw [cnt_of_nodup hnd w, if_pos hw]
     exact cnt_le_one hnd y
+
+/-- **Satisfaction approval (`ApprovalToSimpleVotes(split=True)`), single ballot improvement**: one voter who did not
+    approve the sole winner `w` now does.  Every candidate the ballot approved before loses part of its share
+    (`1/k` becomes `1/(k+1)`), `w` gains `1/(k+1)`. -/
+theorem approval_split_monotone_approve (p : AProfile) (b : Approval) (w : Cand) (hb : b ∈ dkeys p) (hw : w ∉ b)
+    (h : evalApprovalSplit p = .ok [Slot.cand w]) :
+    evalApprovalSplit (replaceUnit p b (approve w b)) = .ok [Slot.cand w] := by
+  have hne := nonempty_of_evalApprovalSplit_ok h
+  have hne' : ∀ bw ∈ replaceUnit p b (approve w b), bw.1 ≠ [] := by
+    intro bw hbw
+    rcases mem_replaceUnit_fst hbw with hx | hx
+    · simp only [dkeys, List.mem_map] at hx
+      obtain ⟨bw', hbw', he⟩ := hx
+      rw [← he]; exact hne bw' hbw'
+    · rw [hx]; exact approve_ne_nil w b
+  rw [evalApprovalSplit_eq p hne] at h
+  rw [evalApprovalSplit_eq _ hne']
+  simp only [Except.ok.injEq] at h ⊢
+  apply additive_winner_monotone approvalSplit_additive p b (approve w b) w hb (mem_approve w b) ?_ h
+  intro y hy
+  try beta_reduce
+  rw [cnt_approve w b y hw, cnt_approve w b w hw, if_neg (fun h => hy h.symm), if_pos rfl, length_approve w b hw,
+    cnt_eq_zero hw]
+  have hc := cnt_nonneg b y
+  have hL : (0 : Rat) ≤ (b.length : Rat) := Nat.cast_nonneg _
+  have h1 : (cnt b y + 0) / ((b.length + 1 : Nat) : Rat) ≤ cnt b y / (b.length : Rat) := by
+    rw [add_zero]
+    apply div_le_div_of_nonneg_left hc ?_ (by push_cast; linarith)
+    · rcases Nat.eq_zero_or_pos b.length with h0 | h0
+      · exfalso
+        have : b = [] := List.length_eq_zero_iff.mp h0
+        simp only [dkeys, List.mem_map] at hb
+        obtain ⟨bw, hbw, he⟩ := hb
+        exact hne bw hbw (by rw [he, this])
+      · exact_mod_cast h0
+  have h2 : (0 : Rat) ≤ (0 + 1) / ((b.length + 1 : Nat) : Rat) - 0 / (b.length : Rat) := by
+    rw [zero_div, sub_zero]; positivity
+  linarith
+
+/-- **Satisfaction approval, new ballot**: a new ballot approving `w` (and any other candidates of the election)
+    gives everybody it approves the same share. -/
+theorem approval_split_monotone_new (p : AProfile) (nb : Approval) (w : Cand) (hnd : nb.Nodup) (hw : w ∈ nb)
+    (hsub : ∀ c ∈ nb, ∃ b ∈ dkeys p, c ∈ b)
+    (h : evalApprovalSplit p = .ok [Slot.cand w]) :
+    evalApprovalSplit (addTo p nb 1) = .ok [Slot.cand w] := by
+  have hne := nonempty_of_evalApprovalSplit_ok h
+  have hne' : ∀ bw ∈ addTo p nb 1, bw.1 ≠ [] := by
+    intro bw hbw
+    have : bw.1 ∈ dkeys (addTo p nb 1) := by simp only [dkeys, List.mem_map]; exact ⟨bw, hbw, rfl⟩
+    rcases (mem_dkeys_addTo p nb 1 bw.1).mp this with hx | hx
+    · simp only [dkeys, List.mem_map] at hx
+      obtain ⟨bw', hbw', he⟩ := hx
+      rw [← he]; exact hne bw' hbw'
+    · rw [hx]; exact List.ne_nil_of_mem hw
+  rw [evalApprovalSplit_eq p hne] at h
+  rw [evalApprovalSplit_eq _ hne']
+  simp only [Except.ok.injEq] at h ⊢
+  apply additive_winner_monotone_new approvalSplit_additive p nb w ?_ ?_ h
+  · intro k hk; exact (approvalSplit_additive.mem_keys p k).mpr (hsub k hk)
+  · intro y
+    try beta_reduce
+    rw [cnt_of_nodup hnd w, if_pos hw]
+    exact div_le_div_of_nonneg_right (cnt_le_one hnd y) (Nat.cast_nonneg _)
+
+/-- the hypotheses of the satisfaction-approval theorems are satisfiable, and the move matters: the share of the
+    ballot's other candidate drops from 1/1 to 1/2 -/
+example : evalApprovalSplit [([1], 2), ([2], 1), ([1, 2], 1)] = .ok [Slot.cand 1]
+    ∧ evalApprovalSplit (replaceUnit [([1], 2), ([2], 1), ([1, 2], 1)] [2] (approve 1 [2])) = .ok [Slot.cand 1] := by
+  decide +kernel
 
 /-! ### score voting with sum aggregation -/
 
